@@ -39,7 +39,7 @@ loader.import_repo()
 import halmos.__main__ as hm  # noqa: E402
 import halmos.bitvec as hb  # noqa: E402
 import halmos.sevm as hs  # noqa: E402
-from contracts.common import THIS, mk_ex, mk_sevm  # noqa: E402
+from contracts.common import THIS, mk_ex, mk_sevm, replay_script  # noqa: E402
 from halmos.bytevec import ByteVec  # noqa: E402
 
 PROP = "C20"
@@ -198,7 +198,7 @@ def fork_cases():
         now = (hs_fingerprint(pre), len(pre.known_keys), dict(pre.cnts), len(pre.alias), len(pre.st.stack), len(pre.context.trace))
         ctx.oblige("frame: running a test/transaction does not modify the state it starts from (the next test starts from exactly the post-setUp state)", z3.BoolVal(now == snapshot))
 
-    out.append(Case(f"{PROP}/sevm.SEVM.run_message", "test state derived from the setUp state", harness_tx, sources=("halmos.sevm:SEVM.run_message",)))
+    out.append(Case(f"{PROP}/sevm.SEVM.run_message", "test state derived from the setUp state", harness_tx, replay=replay_script("block_shared_between_tests.py", "two tests from one setUp state; the first calls vm.warp, the second asserts under block.timestamp <= deadline"), sources=("halmos.sevm:SEVM.run_message",)))
     return out
 
 
@@ -363,6 +363,15 @@ def build_cases(tier="quick"):
     for c in c11.path_growth_cases():
         if "extend_path" in c.unit:
             ref.append(Case(f"{PROP}/sevm.Path.extend_path", c.case, c.harness, replay=c.replay, sources=c.sources))
+    # sibling continuations of one sub-call (every path leaving the callee runs the callback once) and the
+    # hash registry handed to every test/path: ownership obligations proved in the C09 and C08 packs
+    from contracts import c08, c09
+
+    for c in c09.callback_cases():
+        ref.append(Case(f"{PROP}/sevm.SEVM.call#callback-ownership", c.case, c.harness, replay=c.replay, sources=c.sources))
+    for c in c08.offsetmap_cases():
+        if "KeccakRegistry" in c.unit:
+            ref.append(Case(f"{PROP}/sevm.KeccakRegistry.copy", c.case, c.harness, replay=c.replay, sources=c.sources))
     return classify_cases() + fork_cases() + main_cases() + copy_cases() + ref
 
 
